@@ -300,7 +300,7 @@ func main() {
 	// growth and shrink cycles), the touched key and value checked after every call and the whole
 	// map every 997 calls.
 	{
-		n := ev.Pick(r, 40000, 400000)
+		n := ev.Pick(r, 140000, 400000)
 		b := &maps.Bimap[int, int]{}
 		fwd, rev := map[int]int{}, map[int]int{}
 		bad := ""
